@@ -14,10 +14,10 @@ def pC15 : P C15Case := do
   let trials ← P.int
   -- completion state of the stored experiment: 0 none, 1 Succeeded/MaxTrialsReached, 2 Succeeded/GoalReached, 3 Failed
   let state ← P.nat
-  let resume ← P.tok
+  let resume ← P.str
   let completed := state != 0
   -- IsCompletedExperimentRestartable (proved equivalent to this in C16_restartable_iff)
-  let restartable := state == 1 && (resume == "longRunning" || resume == "fromVolume")
+  let restartable := state == 1 && (resume == "LongRunning" || resume == "FromVolume")
   let createOk ← P.bool
   let _path ← P.tok
   pure { old := { spec := ⟨op, om, of_, orest⟩, trials, completed, restartable }, new := ⟨np, nm, nf, nrest⟩, createOk }
